@@ -31,7 +31,7 @@ ReplayRecord ==
       w |-> w2, pubrows |-> pubrows, privrows |-> privrows, nslots |-> nslots,
       rewrite |-> SetToSeq(rewrite),
       den0 |-> DenSeq(graph, Env0),
-      m02 |-> ModelC02, m03 |-> ModelC03 ]
+      m02 |-> ModelC02, m03 |-> ModelC03, m09 |-> BusWellFormed ]
 
 EmitReplay == stage = "done" => PrintT(<<"REPLAY", ToJson(ReplayRecord)>>)
 
